@@ -137,9 +137,39 @@ func TestC01Big(t *testing.T) {
 	}
 }
 
+// TestC01FullBuffer: more than one read buffer full of name-less 16-byte
+// records (changes to watched files themselves), so that records end exactly
+// at the end of the 64 KiB buffer.
+func TestC01FullBuffer(t *testing.T) {
+	n := 4096*2 + 700
+	c := &engine.Case{Prop: "C01", Buf: 0}
+	c.Setup = []engine.Step{{K: engine.KMkdir, P: "d0"}, {K: engine.KCreate, P: "d0/fa"}, {K: engine.KCreate, P: "d0/fb"}}
+	c.Steps = []engine.Step{{K: engine.KAdd, P: "d0/fa"}, {K: engine.KAdd, P: "./d0/fb"}, {K: engine.KPlug}}
+	for i := 0; i < n; i++ {
+		p := engine.P([]string{"d0/fa", "d0/fb"}[i%2])
+		c.Steps = append(c.Steps, engine.Step{K: engine.KChmod, P: p, N: 0o600 + (i/2%2)*0o44})
+	}
+	// the watch-ending record of fa is somewhere in the third read
+	c.Steps = append(c.Steps, engine.Step{K: engine.KRename, P: "d0/fa", Q: "d0/fc"}, engine.Step{K: engine.KChmod, P: "d0/fb", N: 0o600}, engine.Step{K: engine.KSync}, engine.Step{K: engine.KList}, engine.Step{K: engine.KFdchk})
+	w := engine.Exec(c)
+	engine.RecordCase("C01", &engine.Case{Prop: "C01", Buf: c.Buf, Steps: c.Steps[:8]}, w, true)
+	engine.StatsFor("C01").AddFeat("full-buffer-nameless-events", w.Delivered)
+	if rep := engine.Report(c, w, map[string]bool{engine.FMissing: true, engine.FWedge: true, engine.FClosed: true, engine.FList: true, engine.FMarks: true}); rep != nil {
+		msg := strings.Join(rep, "\n")
+		if len(msg) > 3000 {
+			msg = msg[:3000]
+		}
+		t.Fatalf("property C01 violated (replay %s)\n%d name-less records in one burst\n%s", engine.SaveReplay("C01", c), n, msg)
+	}
+}
+
+func TestC01Overflow(t *testing.T) { overflowTest(t, "C01") }
+
 // ---- C10: kernel queue overflow ------------------------------------------------
 
-func TestC10Overflow(t *testing.T) {
+func TestC10Overflow(t *testing.T) { overflowTest(t, "C10") }
+
+func overflowTest(t *testing.T, prop string) {
 	rounds := 1
 	if thorough() {
 		rounds = 10
@@ -147,7 +177,7 @@ func TestC10Overflow(t *testing.T) {
 	seed := envInt("VERIF_SEED_EFF", 1)
 	for r := 0; r < rounds; r++ {
 		extra := 1 + (seed*7919+r*2713)%20000
-		c := &engine.Case{Prop: "C10", Buf: []int{0, 8, -1, 4096}[(seed+r)%4]}
+		c := &engine.Case{Prop: prop, Buf: []int{0, 8, -1, 4096}[(seed+r)%4]}
 		c.Setup = []engine.Step{{K: engine.KMkdir, P: "d0"}, {K: engine.KMkdir, P: "d1"}, {K: engine.KMkdir, P: "fresh"}, {K: engine.KCreate, P: "d0/f"}}
 		c.Steps = []engine.Step{
 			{K: engine.KAdd, P: "d0"}, {K: engine.KAdd, P: "d1"},
@@ -161,10 +191,13 @@ func TestC10Overflow(t *testing.T) {
 			{K: engine.KList}, {K: engine.KFdchk},
 		}
 		w := engine.Exec(c)
-		engine.RecordCase("C10", c, w, true)
+		engine.RecordCase(prop, c, w, true)
 		owned := map[string]bool{engine.FErrors: true, engine.FMissing: true, engine.FExtra: true, engine.FAddErr: true, engine.FRmErr: true, engine.FWedge: true, engine.FList: true, engine.FClosed: true}
+		if prop == "C01" { // the only permitted loss is the overflow itself, and it is announced
+			owned = map[string]bool{engine.FMissing: true, engine.FWedge: true, engine.FClosed: true, engine.FErrors: true}
+		}
 		if rep := engine.Report(c, w, owned); rep != nil {
-			t.Fatalf("property C10 violated (replay %s)\ncase: %s\n%s", engine.SaveReplay("C10", c), c, strings.Join(rep, "\n"))
+			t.Fatalf("property %s violated (replay %s)\ncase: %s\n%s", prop, engine.SaveReplay(prop, c), c, strings.Join(rep, "\n"))
 		}
 	}
 }
